@@ -45,10 +45,10 @@ def history_lines(ctx):
     th = ctx.thorough()
     lines = []
     # (scenario, steps, datapack, treepack, max_faults)
-    plan = [(0, 5, 6000, 700, 200), (1, 6, 20000, 1, 140), (2, 4, 20000, 1, 140), (0, 7, 3000, 1, 200), (3, 3, 6000, 700, 200)]
+    plan = [(0, 5, 6000, 700, 150), (1, 6, 20000, 1, 100), (2, 4, 20000, 1, 100), (0, 7, 3000, 1, 150), (3, 3, 6000, 700, 150)]
     if th:
         plan = [(0, 6, 6000, 700, 0), (1, 8, 20000, 1, 0), (2, 6, 20000, 1, 0), (0, 8, 3000, 1, 0),
-                (0, 9, 12000, 2000, 0), (0, 5, 1, 1, 0), (1, 10, 1, 1, 0), (0, 10, 8000, 300, 600), (0, 12, 5000, 100, 600), (3, 3, 6000, 700, 0), (3, 5, 3000, 1, 600)]
+                (0, 9, 12000, 2000, 0), (0, 5, 1, 1, 800), (1, 10, 1, 1, 800), (0, 10, 8000, 300, 600), (0, 12, 5000, 100, 600), (3, 3, 6000, 700, 0), (3, 5, 3000, 1, 600)]
     for (sc, steps, dp, tp, mf) in plan:
         lines.append("%d %d %d %d %d %d 1" % (rng.randint(1, 10 ** 9), sc, steps, dp, tp, mf))
     return lines
@@ -87,16 +87,17 @@ def run(ctx):
         corpus = os.path.join(ctx.pdir, "corpus.txt")
         if os.path.exists(corpus):
             lines = [l.split("#")[0].strip() for l in open(corpus) if l.split("#")[0].strip()] + lines
-    inp = os.path.join(ctx.bdir, "hist_%d.txt" % os.getpid())
-    open(inp, "w").write("\n".join(lines) + "\n")
-    rc, out, err = vlib.sh2([impl, inp], timeout=5400 if ctx.thorough() else 1500)
-    os.remove(inp)
-    if rc != 0:
-        ctx.violation("C05 harness run failed (rc=%s): the e2e oracle could not be evaluated" % rc,
-                      {"stderr_tail": err[-2000:], "stdout_tail": out[-1000:]}, no_input=True)
-        vlib.finish_broken_obligations(ctx)
-        return
-
+    # one harness process per history (each stays well below ten minutes)
+    out = ""
+    for i, ln in enumerate(lines):
+        inp = os.path.join(ctx.bdir, "hist_%d_%d.txt" % (os.getpid(), i))
+        open(inp, "w").write(ln + "\n")
+        rc, o1, err = vlib.sh2([impl, inp], timeout=900)
+        os.remove(inp)
+        if rc != 0 and "\nE" not in "\n" + o1:
+            # killed or crashed half way: keep what was observed, close the history
+            o1 += ("" if o1.startswith("H ") else "H seed=? base=ok scenario=?\n") + "X harness process ended with rc=%s: %s\nE\n" % (rc, err[-300:].replace("\n", " "))
+        out += o1
     # ---- parse
     hists = []  # dicts: line, H, faults [(F dict, D or None)], base dump
     cur = None
